@@ -1,4 +1,5 @@
 """C11 TDD three-valued logic"""
+import eshort
 import ecache
 import ewrap
 import kinds
@@ -27,4 +28,9 @@ def run(ctx):
     n = ecache.run(ctx, F, crates=("oxidd_rules_tdd::",))
     ctx.floor("E-CACHE", "cache-using algorithm functions", n, 3)
     ecache.check_hit_equals_miss(ctx, F, crates=("oxidd_rules_tdd::",))
+    ctx.explain("E-TABLE.shortcut: the shortcut prefix (equal/constant operands, delegations) of apply_ite and of the "
+                "ZBDD set operations is interpreted for all operand tuples over {constants, x, y, z} up to the cache "
+                "lookup; every shortcut taken must denote the operation.")
+    n = eshort.run(ctx, F, kinds=("tdd",))
+    ctx.floor("E-TABLE.shortcut", "shortcut situations interpreted", n, 20)
     ctx.not_decided = "ternary Shannon recursion, eval"
